@@ -4,7 +4,7 @@ READY = True
 SPEC = {
     "targets": ["Properties/C19.vo", "Run/C19.vo"],
     "theorems": {"Properties.C19": [
-        "C19_relaxed_eq_strict_partial", "C19_strict_valid_single_doc",
+        "C19_relaxed_eq_strict", "C19_shape_check_sound", "C19_relaxed_eq_strict_partial", "C19_strict_valid_single_doc",
         "C19_null_tag_on_mapping_now_rejected", "C19_seq_tag_on_mapping_now_rejected", "C19_alias_key_now_rejected",
         "C19_relaxed_total", "C19_descent_bounded", "C19_wrapper_invariance", "C19_wrapper_invariance_file",
         "C19_seq_parent_irrelevant", "C19_nonvacuous", "C19_nonvacuous_embedded"]},
